@@ -123,6 +123,32 @@ def i2f(bv):
 
 ZERO = z3.BitVecVal(0, 64)
 ONE = z3.BitVecVal(1, 64)
+DEFAULT_FREQ = 440.0
+
+
+def last_sounded_claim(sound, prints):
+    """get_last_frequency() is the frequency of the last tone() of the trace (the constructor default when the trace
+    has none): decided per path, where the number of tone events is fixed."""
+    if len(prints) != 3:
+        return []
+    tones = [s for s in sound if s[0] == "tone"]
+    want = i2f(tones[-1][1]) if tones else z3.FPVal(DEFAULT_FREQ, F64)
+    last = prints[2][1]
+    if isinstance(last, FP):
+        lz = last.z() if last.k == 64 else z3.fpFPToFP(RNE, last.z(), F64)
+    else:
+        lz = z3.FPVal(float(last), F64)
+    return [("get_last_frequency() reports the last tone actually sounded (a silent call leaves it alone)",
+             z3.Not(z3.fpLEQ(z3.fpAbs(z3.fpSub(RNE, lz, want)), z3.FPVal(0.51, F64))))]
+
+
+def an_last_only(events, ctx):
+    v, w, sound, prints = split(events)
+    claims = common_claims(sound)
+    claims.append(("a call with a duration leaves the pin silent", ends_silent(sound)))
+    claims += getter_claims(prints, ZERO, z3.FPVal(0.0, F64), None)
+    claims += last_sounded_claim(sound, prints)
+    return claims
 
 
 # ---- per-call analyses ---------------------------------------------------------------------------
@@ -174,6 +200,7 @@ def an_stop(events, ctx):
     claims = common_claims(sound)
     claims.append(("stop() silences the pin", ends_silent(sound) or not any(s[0] == "notone" for s in sound)))
     claims += getter_claims(prints, ZERO, z3.FPVal(0.0, F64), None)
+    claims += last_sounded_claim(sound, prints)
     return claims
 
 
@@ -209,6 +236,7 @@ def an_beep(freq_of, on_of, off_of, times_of):
                 want = z3.If(on > ZERO, on, ZERO) + z3.If(off > ZERO, off, ZERO)
                 claims.append(("beeps are separated by on_ms + off_ms", tot != want))
         claims += getter_claims(prints, ZERO, z3.FPVal(0.0, F64), None)
+        claims += last_sounded_claim(sound, prints)
         return claims
     return analyse
 
@@ -234,6 +262,7 @@ def an_sweep(start, end_of, dur_of, steps):
         claims.append(("sweep never exceeds the requested duration", z3.UGT(tot, z3.If(d > ZERO, d, ZERO))))
         claims.append(("sweep leaves the pin silent", ends_silent(sound)))
         claims += getter_claims(prints, ZERO, z3.FPVal(0.0, F64), None)
+        claims += last_sounded_claim(sound, prints)
         return claims
     return analyse
 
@@ -275,6 +304,7 @@ def an_melody(name, tempo):
         claims.append((f"melody {name!r} plays the score's notes in order with durations 60000/tempo per beat", got != want))
         claims.append(("melody leaves the pin silent", ends_silent(sound)))
         claims += getter_claims(prints, ZERO, z3.FPVal(0.0, F64), None)
+        claims += last_sounded_claim(sound, prints)
         return claims
     return analyse
 
@@ -336,6 +366,12 @@ def cases(tier):
     out.append(("sweep/default_steps", "    bz.sweep(100, 1000, duration_ms=200)\n", an_sweep(100, C(1000), C(200), 10)))
     out.append(("sweep/down", "    bz.sweep(900, v + 1, duration_ms=90, steps=3)\n",
                 an_sweep(900, lambda v, w: v + z3.BitVecVal(1, 64), C(90), 3)))
+    # two calls: what the second (possibly silent) call does to "the tone last sounded"
+    out.append(("last/tone_then_rt_beep", "    bz.play_tone(330, 10)\n    bz.beep(v - 300, on_ms=5, off_ms=5, times=1)\n", an_last_only))
+    out.append(("last/tone_then_zero_times", "    bz.play_tone(330, 10)\n    bz.beep(880, on_ms=5, off_ms=5, times=v // 600)\n", an_last_only))
+    out.append(("last/tone_then_rt_tone", "    bz.play_tone(330, 10)\n    bz.play_tone(v - 300, 20)\n", an_last_only))
+    out.append(("last/tone_then_silent_sweep", "    bz.play_tone(330, 10)\n    bz.sweep(0, v - 300, duration_ms=20, steps=2)\n", an_last_only))
+    out.append(("last/beep_then_default_beep", "    bz.beep(v - 300, on_ms=5, off_ms=5, times=1)\n    bz.beep()\n", an_last_only))
     from Reduino.transpile import emitter
     for name in emitter._BUZZER_MELODIES:
         out.append((f"melody/{name}", f'    bz.melody("{name}")\n', an_melody(name, None)))
